@@ -1,7 +1,7 @@
 (** Proofs about Template.v (C18). Everything is generic in the render function, the kind table and
     the retry intervals; per-pass statements hold for an arbitrary pre-state and are lifted to histories
     at the end. *)
-From Coq Require Import List NArith Bool Lia.
+From Coq Require Import List NArith Bool Lia Permutation.
 From PKO Require Import Util Template.
 Import ListNotations.
 Local Open Scope N_scope.
@@ -1137,6 +1137,32 @@ Section Proofs.
     - destruct (lookup k (w_store w)); [destruct (data_eqb (o_data o) d)|]; cbn in H; try discriminate;
         injection H as H; apply andb_true_iff in H; tauto.
     - destruct (lookup k (w_store w)); cbn in H; try discriminate. injection H as H; apply andb_true_iff in H; tauto.
+  Qed.
+
+  (** The enqueue rule does not depend on the order in which the cache lists the owners of a kind, nor on owners
+      other than the template (other templates of its kind, owners of other kinds sharing the cache):
+      every watcher of the handler's kind is enqueued whatever stands before it in the list. *)
+  Lemma watched_perm kd o a b : Permutation a b -> watched kd o a = watched kd o b.
+  Proof.
+    unfold watched. induction 1 as [|x l l' _ IH|x y l|l l' l'' _ IH1 _ IH2]; cbn; [reflexivity|now rewrite IH| |congruence].
+    destruct ((fst y =? kd) && (snd y =? o)), ((fst x =? kd) && (snd x =? o)); reflexivity.
+  Qed.
+
+  Theorem enqueue_order_irrelevant w wl s :
+    Permutation (w_watch w) wl -> (exists k d l, s = @SPut code k d l) \/ (exists k, s = @SDel code k) ->
+    snd (do_step (with_watch w wl) s) = snd (do_step w s).
+  Proof.
+    intros Hp [(k & d & l & ->)|(k & ->)]; cbn [Template.do_step]; unfold note, Template.enqueued; cbn [w_store w_watch with_watch];
+      rewrite <- (watched_perm _ _ _ _ Hp).
+    - destruct (lookup k (w_store w)); [destruct (data_eqb (o_data o) d)|]; reflexivity.
+    - destruct (lookup k (w_store w)); reflexivity.
+  Qed.
+
+  Theorem enqueue_ignores_other_owners kd kd' o' wl1 wl2 : o' <> me ->
+    watched kd me (wl1 ++ (kd', o') :: wl2) = watched kd me (wl1 ++ wl2).
+  Proof.
+    intros Hne. rewrite !watched_app. f_equal. unfold watched at 1. cbn [existsb fst snd].
+    apply N.eqb_neq in Hne. rewrite Hne, andb_false_r. reflexivity.
   Qed.
 
   (** * Histories *)
